@@ -9,6 +9,7 @@
 //	-mode qrandom          seeded random queue histories
 //	-mode misc             BEP 40 vectors, symmetry of the priority function, IPv6 observations
 //	-mode replay   -in f   re-execute a recorded history (./check C18 --replay)
+//	-mode contact  -scenarios ...   session-level contact scenarios (contact.go)
 package main
 
 import (
@@ -869,6 +870,8 @@ func main() {
 	nq := flag.Int("queries", 300, "")
 	bits := flag.Int("bits", 4, "")
 	caps := flag.String("caps", "2", "")
+	scen := flag.String("scenarios", "", "contact scenarios kind:out:inc:trk:variant,...")
+	settle := flag.Int("settle", 400, "contact: settle window in ms")
 	flag.Parse()
 	rng = rand.New(rand.NewSource(*seed))
 	f, err := os.Create(*outp)
@@ -899,6 +902,8 @@ func main() {
 		modeMisc(*n)
 	case "replay":
 		modeReplay(*in)
+	case "contact":
+		modeContact(*scen, *seed, *settle)
 	default:
 		panic("unknown mode")
 	}
